@@ -870,6 +870,15 @@ pub fn generate(thorough: bool, seed: u64, out: &mut dyn Write) {
     for x in h {
         writeln!(out, "{}", x).unwrap();
     }
+    // damaged entries (`mut <seed> <k> <case>`, Base/Mutate.lean): 1..3 bytes of the encoded entry
+    // (file-info header, block table, block headers, payload) changed; the model of the code and
+    // the code must agree on what is extracted
+    let mut mrng = Rng::new(seed, "C02-mut");
+    for l in regular.iter().filter(|l| l.len() < 12000) {
+        for _ in 0..2 {
+            writeln!(out, "mut {} {} {}", mrng.next() >> 1, 1 + mrng.below(3), l).unwrap();
+        }
+    }
     // the inflater the model's `inflate` parameter is instantiated with is itself checked against
     // zlib on every run: streams from zlib's deflate (all levels / strategies) and corrupted ones
     crate::xinf::generate_n(if thorough { 1500 } else { 120 }, thorough, seed, out);
@@ -882,6 +891,9 @@ pub fn generate(thorough: bool, seed: u64, out: &mut dyn Write) {
 }
 
 pub fn run(case: &str, input: &str) -> String {
+    if input == "skip" {
+        return "skip".into();
+    }
     if case.starts_with("idx ") {
         return crate::c01::run(case, input);
     }
@@ -905,7 +917,15 @@ pub fn run(case: &str, input: &str) -> String {
     let p = path.to_str().unwrap().to_string();
     guarded(move || {
         let Some(mut dat) = SqPackData::from_existing(&p) else { return "nofile".into() };
-        match dat.read_from_offset(offset) {
+        let first = dat.read_from_offset(offset);
+        // the same handle again: a read somewhere else (a rejected or another entry) and the same
+        // read once more — what an extraction returns is a function of the file and the offset
+        let _ = dat.read_from_offset(if offset >= 128 { offset - 128 } else { offset + 128 });
+        let again = dat.read_from_offset(offset);
+        if first != again {
+            return format!("unstable:{}", match again { Some(d) => hex(&d), None => "none".into() });
+        }
+        match first {
             Some(d) => hex(&d),
             None => "none".into(),
         }
